@@ -3,7 +3,7 @@
    Arrays are (length, index function) over Q; np.pad is an arbitrary function with the contract
    [np_contract]; exp is an arbitrary positive function. *)
 From Coq Require Import ZArith QArith List Bool Lia.
-From PB Require Import lib.PySlice C18.Model C18.SumQ C18.PadProofs C18.ConvProofs C18.Model2D C18.Proofs2D C18.DType C18.DTypeProofs C18.OwProofs C18.LsqMin C18.LinProofs C18.AffProofs C18.ExtLin.
+From PB Require Import lib.PySlice C18.Model C18.SumQ C18.PadProofs C18.ConvProofs C18.Model2D C18.Proofs2D C18.DType C18.DTypeProofs C18.OwProofs C18.LsqMin C18.LinProofs C18.AffProofs C18.ExtLin C18.Offset.
 Import ListNotations.
 Open Scope Z_scope.
 
@@ -452,3 +452,16 @@ Theorem C18_convolve_extrapolate_linear : forall (y1 y2 k : vec) (ew : option (l
   end.
 Proof. exact convolve_extrapolate_linear. Qed.
 Print Assumptions C18_convolve_extrapolate_linear.
+
+(* smoothing commutes with an offset: in the default mode 'reflect', for ARBITRARY data, every kernel with
+   unit sum and 1 <= M <= N, and every b, both calls succeed and padded_convolve(y + b) = padded_convolve(y) + b
+   point by point (y + b written as the combination vshift b y = 1*y + b*ones).  Corollary of
+   C18_convolve_index_modes_linear and C18_convolve_const_reflect; false for M > N (C18_convolve_long_kernel_refuted). *)
+Theorem C18_convolve_reflect_offset : forall (y k : vec) (b : Q),
+  1 <= vlen k -> vlen k <= vlen y -> (vsum k == 1)%Q ->
+  exists o o', padded_convolve y k (NpMode np_reflect) = Ok o /\
+               padded_convolve (vshift b y) k (NpMode np_reflect) = Ok o' /\
+               vlen o = vlen y /\ vlen o' = vlen y /\
+               forall i, 0 <= i < vlen y -> (vget o' i == vget o i + b)%Q.
+Proof. exact convolve_reflect_offset. Qed.
+Print Assumptions C18_convolve_reflect_offset.
